@@ -28,6 +28,7 @@ type tStruct interface {
 	parkObserve(slot int) (gone bool, split bool)
 	targets(mode int, buf []int) []int
 	rootN() int
+	touchedN() int // key count, before the operation, of the leaf the last prePut/preDelete ended in
 	forget()
 }
 
@@ -44,14 +45,16 @@ type tStructT[V comparable] struct {
 	dLn, dLeftN, dRightN, dParN int
 	dParIsRoot                  bool
 	// nodes the live iterators are parked in
-	park  [tMaxIters]tNodeH[V]
-	parkN [tMaxIters]int
+	park      [tMaxIters]tNodeH[V]
+	parkN     [tMaxIters]int
+	lastLeafN int
 	// target collection
 	tmode int
 	tbuf  []int
 }
 
-func (s *tStructT[V]) rootN() int { return s.root().N() }
+func (s *tStructT[V]) rootN() int    { return s.root().N() }
+func (s *tStructT[V]) touchedN() int { return s.lastLeafN }
 
 // forget drops every node handle the harness holds.
 func (s *tStructT[V]) forget() {
@@ -254,6 +257,7 @@ func (s *tStructT[V]) pathCheck(pos int) bool {
 }
 
 func (s *tStructT[V]) prePut(pos int) bool {
+	s.lastLeafN = -1
 	x := s.root()
 	for {
 		idx, found := s.search(x, pos)
@@ -262,6 +266,7 @@ func (s *tStructT[V]) prePut(pos int) bool {
 		}
 		c := x.Child(0)
 		if c.Nil() {
+			s.lastLeafN = x.N()
 			return x.N() >= tMaxKeys
 		}
 		x = x.Child(idx)
@@ -282,6 +287,7 @@ func (s *tStructT[V]) childIndex(p, c tNodeH[V]) int {
 
 func (s *tStructT[V]) preDelete(pos int) bool {
 	s.dValid = false
+	s.lastLeafN = -1
 	x := s.root()
 	for {
 		idx, found := s.search(x, pos)
@@ -309,6 +315,7 @@ func (s *tStructT[V]) preDelete(pos int) bool {
 	}
 	var none tNodeH[V]
 	s.dL, s.dLn = x, x.N()
+	s.lastLeafN = s.dLn
 	s.dParent = x.Parent()
 	s.dLeft, s.dRight = none, none
 	s.dLeftN, s.dRightN = 0, 0
